@@ -502,7 +502,9 @@ pub fn hf_zoo(rng: &mut Rng, variant: usize) -> Vec<u8> {
 pub fn tekken_json(rng: &mut Rng, variant: usize) -> Vec<u8> {
     let odd = |rng: &mut Rng| rng.chance(1, 6);
     // the number of special tokens around the 14 named ones (fewer, none, more), with a vocabulary size that fits it
-    let nspecial = if rng.chance(1, 3) { *rng.pick(&[0usize, 1, 2, 13, 15, 20, 4294967295]) } else { 14 };
+    // (12 and 13 are the counts below 14 for which three vocabulary entries still leave room for tokens: the
+    // converter emits the 14 named specials regardless and numbers the vocabulary after them)
+    let nspecial = if rng.chance(1, 2) { *rng.pick(&[0usize, 1, 2, 12, 12, 13, 13, 15, 20, 4294967295]) } else { 14 };
     let vs = if odd(rng) { *rng.pick(&[0usize, 1, 13, 14, 100, 4294967295, 4294967296]) } else { nspecial.min(1000) + rng.range(1, 3) };
     let mut vocab = String::new();
     // ranks in file order, in another order, or with gaps: a token's id is its rank, not its position
